@@ -103,8 +103,20 @@ def gen(rng, tier):
         else:
             s2, six2 = second_source(rng, s1, six1, min(v6, 64) if six1 else min(v4, 32))
         k1, k2 = gen_kinds(rng)
+        r_extra = rng.random()
+        if r_extra < 0.04:
+            # names made of the SAME octets split into labels differently are different names (different streams)
+            a, b = rng.sample(["ab.c", "a.bc", "abc", "a.b.c", "ab.C"], 2)
+            k = rng.choice("nd")
+            k1, k2 = k + a, k + b
+        elif r_extra < 0.08:
+            # ANY answers from one big wildcard that are TRUNCATED over UDP: one stream whatever the QNAME (slip 0: see impl_c27)
+            k1, k2 = "b" + rng.choice(["q", "zz", "Q"]), rng.choice(["b", "b", "b", "n"]) + rng.choice(["q", "other", "zz"])
+            slip = 0
         tr = lambda: "udp" if rng.random() < 0.9 else "tcp"
-        yield f"{v4} {v6} {slip} {size} {hx(s1)} {tr()} {k1} {rng.choice([0, 1])} {hx(s2)} {tr()} {k2} {rng.choice([0, 1])}"
+        e1 = 0 if k1[0] == "b" else rng.choice([0, 1])
+        e2 = 0 if k2[0] == "b" else rng.choice([0, 1])
+        yield f"{v4} {v6} {slip} {size} {hx(s1)} {tr()} {k1} {e1} {hx(s2)} {tr()} {k2} {e2}"
 
 
 def nontrivial(case, impl, model, oracle):
